@@ -466,6 +466,10 @@ def judge_pipeline(p, r):
     if "setup_exc" in r:
         return None  # the writer refused the set: not C20's business (counted)
     want = WRITER_FORMAT[p["writer"]]
+    if r.get("text") == "":
+        return None  # the writer produced no document at all (what detect_format must do with "" is the first sentence's business)
+    if [m for m in r.get("text_markers", []) if m != want]:
+        return None  # the captions' own text is accepted by another format's sniffer: "text that contains another format's marker"
     if "detect_exc" in r:
         return "own-output: detect_format raised %s on %s output" % (r["detect_exc"], p["writer"])
     if r.get("detected") != want:
@@ -559,6 +563,8 @@ def _run(seed, tier, a, t0, evidence_path):
                     stats["pipeline_setup_refused"] += 1
                     continue
                 by_kind["none(fault-free pipeline)"] = by_kind.get("none(fault-free pipeline)", 0) + 1
+                if [m for m in res.get("text_markers", []) if m != WRITER_FORMAT[p["writer"]]] or res.get("text") == "":
+                    stats["pipelines_not_judged_foreign_marker_or_empty"] = stats.get("pipelines_not_judged_foreign_marker_or_empty", 0) + 1
                 tag = judge_pipeline(p, res)
                 outcomes["pipeline|%s|%s|%s" % (p["writer"], res.get("detected"), "read-ok" if "reread" in res else "read-exc")] = 1
                 if tag is not None:
@@ -734,6 +740,7 @@ def _run(seed, tier, a, t0, evidence_path):
             "faults_fired": by_kind, "blobs": stats["blobs"], "accepted_by_some_sniffer": stats["accepted_blobs"],
             "accepted_by_two_or_more_sniffers": stats["multi_accepted_blobs"],
             "pipelines": stats["pipelines"], "pipelines_refused_by_writer": stats["pipeline_setup_refused"],
+            "pipelines_not_judged_foreign_marker_or_empty": stats.get("pipelines_not_judged_foreign_marker_or_empty", 0),
             "result_digest": canon.digest("".join(digests)), "runs_per_hour": round(total / max(wall, 1e-6) * 3600),
             "seeds": {"master": seed}, "simulated_time": "none: the SUT reads no clock; logical steps = %d" % total,
             "stopped_early": stopped_early, "workers": workers,
